@@ -364,9 +364,21 @@ func (en *env) addrOf(e ast.Expr) TV {
 	case *ast.ParenExpr:
 		return en.addrOf(x.X)
 	case *ast.IndexExpr:
-		base := en.eval(x.X, nil)
 		idx := en.coerceTo(en.eval(x.Index, types.Typ[types.Int]), types.Typ[types.Int])
 		it := r.toIdx(en.scalar(idx), idx.T)
+		// element of an addressable array (p.RegX[i], a package-level array)
+		switch x.X.(type) {
+		case *ast.SelectorExpr, *ast.Ident:
+			if ap, ok := en.tryAddrOf(x.X); ok {
+				if pv, ok := ap.V.(PtrV); ok {
+					if at, ok := pv.L.T.Underlying().(*types.Array); ok {
+						loc := Loc{Heap: pv.L.Heap + "[]", Idxs: append(append([]*smt.Term(nil), pv.L.Idxs...), it), T: at.Elem()}
+						return TV{V: PtrV{loc}, T: types.NewPointer(at.Elem())}
+					}
+				}
+			}
+		}
+		base := en.eval(x.X, nil)
 		switch b := base.V.(type) {
 		case SliceV:
 			loc := Loc{Heap: b.Base.Heap + "[]", Idxs: append(append([]*smt.Term(nil), b.Base.Idxs...), r.iadd(b.Off, it)), T: b.Base.T}
@@ -484,6 +496,19 @@ func (en *env) binary(x *ast.BinaryExpr, want types.Type) TV {
 		return TV{V: res, T: types.Typ[types.Bool]}
 	}
 	return TV{V: res, T: a.T}
+}
+
+func (en *env) tryAddrOf(e ast.Expr) (tv TV, ok bool) {
+	defer func() {
+		if x := recover(); x != nil {
+			if _, isU := x.(unsupported); isU {
+				ok = false
+				return
+			}
+			panic(x)
+		}
+	}()
+	return en.addrOf(e), true
 }
 
 // tryEval evaluates e without a type hint; failures (ill-typed without context) are reported as !ok.
@@ -722,7 +747,15 @@ func (en *env) call(x *ast.CallExpr, want types.Type) TV {
 			}
 			return TV{V: r.convert(nil, a.V, a.T, t), T: t}
 		}
+		if en.pkg != nil {
+			if sf := r.E.Specs[en.pkg.PkgPath+"::"+id.Name]; sf != nil {
+				return en.specCall(sf, x.Args)
+			}
+		}
 		if sf, ok := r.E.Specs[id.Name]; ok {
+			if sf == nil {
+				en.errf("spec %s is defined in several packages; none in %v", id.Name, en.pkg)
+			}
 			return en.specCall(sf, x.Args)
 		}
 		// program function in the contract's package
